@@ -87,7 +87,8 @@ class Run:
             cmd += args
         return cmd
 
-    def run_harness(self, binary, args=None, timeout=3600, env=None, label=None):
+    def run_harness(self, binary, args=None, timeout=3600, env=None, label=None, replay_file=None):
+        """replay_file: a saved regression case (replays/<ID>/*.json) to run instead of generation"""
         os.makedirs(WORK, exist_ok=True)
         label = label or os.path.basename(binary)
         out = os.path.join(WORK, f"result-{self.prop}-{label}-{os.getpid()}.json")
@@ -96,10 +97,10 @@ class Run:
         e = dict(ENV)
         if env:
             e.update(env)
-        r = sh(self._harness_cmd(binary, out, args, replay=self.replay), timeout=timeout, env=e)
+        r = sh(self._harness_cmd(binary, out, args, replay=replay_file or self.replay), timeout=timeout, env=e)
         if not os.path.exists(out):
             if r.returncode < 0 or r.returncode in (101, 134):
-                return self._crashed(binary, args, e, timeout, label, r)
+                return self._crashed(binary, args, e, timeout, label, r, replay_file)
             raise Infra(f"{label} produced no result (exit {r.returncode}):\n{(r.stdout or '')[-3000:]}")
         res = json.load(open(out))
         os.remove(out)
@@ -107,13 +108,13 @@ class Run:
         self.results.append(res)
         return res
 
-    def _crashed(self, binary, args, e, timeout, label, r):
+    def _crashed(self, binary, args, e, timeout, label, r, replay_file=None):
         """The harness process died (signal / abort): find the case with a journalled re-run,
         confirm it by replay, minimise it by delta debugging on its list-valued fields."""
         sig = f"exit{r.returncode}" if r.returncode >= 0 else f"signal{-r.returncode}"
         out = os.path.join(WORK, f"result-{self.prop}-{label}-{os.getpid()}-j.json")
-        if self.replay:
-            body = json.load(open(self.replay))
+        if replay_file or self.replay:
+            body = json.load(open(replay_file or self.replay))
             res = {"_label": label, "evaluations": 1, "distinct_nontrivial": 0, "violations": [
                 {"sub": body.get("sub", ""), "key": f"crash", "what": f"harness process died ({sig}) while executing the replay case", "case": body.get("case")}]}
             self.results.append(res)
